@@ -87,6 +87,26 @@ def run(ctx):
                 # on generated code in the thorough tier (corpus pairs), not guessed here
                 ctx.notes.append("%s: end-of-tick reset through a helper parameter (%s)" % (op.name, [sl for _m, sl in resets]))
                 continue
+            # placement coverage: a reset that only exists in the code emitted for one placement (under `if is_pull` / its else) leaves the state of the
+            # other placement alive across ticks
+            def _placement(m):
+                pl = set()
+                for c_ in m["conds"]:
+                    c2 = c_.replace(" ", "")
+                    if c2 in ("ifis_pull", "else-of!is_pull"):
+                        pl.add("pull")
+                    elif c2 in ("if!is_pull", "else-ofis_pull"):
+                        pl.add("push")
+                return pl
+            covered = set()
+            for m, sl in good:
+                if sl:
+                    plm = _placement(m)
+                    covered |= plm if plm else {"pull", "push"}
+            both = any(_placement(m) for m in macros if m["macro"] in ("quote", "quote_spanned"))
+            if any(sl for m, sl in good) and both and covered != {"pull", "push"}:
+                ctx.violation(R2, key + "|reset-on-one-placement-only", "`%s` emits code for both placements, but its Persistence::Tick reset only exists in the code emitted for the %s placement: "
+                              "on the other side of a subgraph the 'tick state survives into the next tick" % (op.name, "/".join(sorted(covered))), loc)
             if not any(sl for m, sl in good):
                 ctx.violation(R2, key + "|no-reset", "no template on a Persistence::Tick arm of `%s` re-initialises (assigns / clear()s / drain()s) a state identifier declared in the operator's "
                               "prologue: 'tick state would survive into the next tick" % op.name, loc)
